@@ -25,6 +25,12 @@ def text(tree, um):
         "",
         inc("au/au.hh", 0),
         inc("au/units/%s.hh" % unit, 1),
+    ]
+    if um.get("dup_include"):
+        # the same header named twice (legal, every header has its guard; it happens when two
+        # blocks of includes are merged)
+        lines += [inc("au/au.hh", 2), inc("au/units/%s.hh" % unit, 3)]
+    lines += [
         "",
         "namespace acme {",
         "struct Widgets : decltype(au::%s{} * au::mag<7>()) {};" % ty,
